@@ -1,6 +1,7 @@
 package c12
 
 import (
+	"bytes"
 	"context"
 	"crypto/ecdsa"
 	"crypto/x509"
@@ -35,6 +36,9 @@ import (
 // dereferences and failed type assertions hide in combinations the suite never builds
 // (caller-supplied revocation validators x tsa policy x countersigned signature; installed
 // plugin x COSE attribute with a numeric label; ...).
+
+// what a caller may put into BlobVerifierVerifyOptions.TrustPolicyName
+var blobPolicyNames = []string{"c12", "", " ", "absent"}
 
 type sweepSig struct {
 	label  string
@@ -224,10 +228,10 @@ func (w *world) sweepVerifier(c *common.Ctx, n int) {
 		{"signing-authority-store", "strict", true, []string{"signingAuthority:c12"}, "", []string{"*"}},
 	}
 	emit := func(label string, f func() bool) {
-		in := Input{Entry: "vVerify", OCI: "enforce", Blob: "enforce", Manager: true, Sig: "valid", Fuzz: true, Label: "verifier sweep: " + label}
+		in := Input{Entry: "vVerify", OCI: "enforce", Blob: "enforce", Manager: true, Sig: "valid", Named: true, Fuzz: true, Label: "verifier sweep: " + label}
 		consistent := true
 		p := w.guard(label, func() { consistent = f() })
-		c.Emit(in, Obs{Panicked: p, Consistent: consistent && !p})
+		emitCase(c, in, Obs{Panicked: p, Consistent: consistent && !p})
 		c.Count("sweep=verifier")
 	}
 	pair := func(out *notation.VerificationOutcome, err error) bool {
@@ -282,6 +286,8 @@ func (w *world) sweepVerifier(c *common.Ctx, n int) {
 							return ocispec.Descriptor{Digest: a.FromBytes(blob), Size: int64(len(blob))}, nil
 						}
 						ok = pair(v.VerifyBlob(ctx, gen, s.bytes, notation.BlobVerifierVerifyOptions{SignatureMediaType: s.format, TrustPolicyName: "c12"})) && ok
+						// ... and asked for the global statement, which this document does not have (no outcome then: only no panic)
+						v.VerifyBlob(ctx, gen, s.bytes, notation.BlobVerifierVerifyOptions{SignatureMediaType: s.format})
 						return ok
 					})
 				}
@@ -367,7 +373,7 @@ func (w *world) sweepConstructors(c *common.Ctx) {
 		for _, ct := range ctors {
 			d, ct := d, ct
 			label := "constructor sweep: " + ct.label + " | " + d.label
-			in := Input{Entry: "vVerify", OCI: "enforce", Blob: "enforce", Manager: false, Sig: "valid", Fuzz: true, Label: label}
+			in := Input{Entry: "vVerify", OCI: "enforce", Blob: "enforce", Manager: false, Sig: "valid", Named: true, Fuzz: true, Label: label}
 			p := w.guard(label, func() {
 				store := common.NewMemStore()
 				store.Certs["ca:c12"] = []*x509.Certificate{w.chain.Root().Cert}
@@ -382,7 +388,12 @@ func (w *world) sweepConstructors(c *common.Ctx) {
 					gen := func(a digest.Algorithm) (ocispec.Descriptor, error) {
 						return ocispec.Descriptor{Digest: a.FromBytes(blob), Size: int64(len(blob))}, nil
 					}
-					bv.VerifyBlob(ctx, gen, sig, notation.BlobVerifierVerifyOptions{SignatureMediaType: common.MediaJWS, TrustPolicyName: "c12"})
+					// the statement asked for by name, as the global one (empty name), by a blank and an unknown name
+					for _, name := range blobPolicyNames {
+						bo := notation.BlobVerifierVerifyOptions{SignatureMediaType: common.MediaJWS, TrustPolicyName: name}
+						bv.VerifyBlob(ctx, gen, sig, bo)
+						notation.VerifyBlob(ctx, bv, bytes.NewReader(blob), sig, notation.VerifyBlobOptions{BlobVerifierVerifyOptions: bo})
+					}
 				}
 				if sk, ok := v.(interface {
 					SkipVerify(context.Context, notation.VerifierVerifyOptions) (bool, *trustpolicy.VerificationLevel, error)
@@ -390,7 +401,7 @@ func (w *world) sweepConstructors(c *common.Ctx) {
 					sk.SkipVerify(ctx, notation.VerifierVerifyOptions{ArtifactReference: ref + "@" + target.Digest.String()})
 				}
 			})
-			c.Emit(in, Obs{Panicked: p, Consistent: !p})
+			emitCase(c, in, Obs{Panicked: p, Consistent: !p})
 			c.Count("sweep=constructors")
 		}
 	}
@@ -449,12 +460,12 @@ func (w *world) sweepRegistry(c *common.Ctx) {
 		}},
 	}
 	emit := func(label string, f func()) {
-		in := Input{Entry: "parser", OCI: "enforce", Blob: "enforce", Manager: true, Sig: "garbage", Fuzz: true}
+		in := Input{Entry: "parser", OCI: "enforce", Blob: "enforce", Manager: true, Sig: "garbage", Named: true, Fuzz: true}
 		p := w.guard(label, f)
 		if w.heapCheck() {
 			p = true
 		}
-		c.Emit(in, Obs{Panicked: p, Consistent: !p})
+		emitCase(c, in, Obs{Panicked: p, Consistent: !p})
 		c.Count("sweep=registry")
 	}
 	// Each hostile manifest is exercised in a CHILD process: a runaway allocation is a fatal
@@ -508,9 +519,9 @@ func (w *world) sweepRegistry(c *common.Ctx) {
 			if crashed && len(w.panics) < 5 {
 				w.panics = append(w.panics, fmt.Sprintf("registry %s layer-size=%d: child process died: %v", v.label, s, runErr))
 			}
-			in := Input{Entry: "parser", OCI: "enforce", Blob: "enforce", Manager: true, Sig: "garbage", Fuzz: true,
+			in := Input{Entry: "parser", OCI: "enforce", Blob: "enforce", Manager: true, Sig: "garbage", Named: true, Fuzz: true,
 				Label: fmt.Sprintf("hostile registry (child process): %s manifest, layer size declared as %d", v.label, s), Data: hex.EncodeToString([]byte(v.json(s)))}
-			c.Emit(in, Obs{Panicked: crashed, Consistent: !crashed})
+			emitCase(c, in, Obs{Panicked: crashed, Consistent: !crashed})
 			c.Count("sweep=registry")
 		}
 	}
